@@ -102,10 +102,16 @@ class ConstBuilder(exprgen.Builder):
         if math.isnan(v) or math.isinf(v):
             return cm.literal(v, t)
         d = self.draw
-        form = d(st.integers(0, 2))
+        form = d(st.integers(0, 4))
         neg = v < 0 or math.copysign(1, v) < 0
         a = abs(v)
-        if form == 0:
+        if form == 4:
+            # hexadecimal floating constant without digits before the point: 0x1.8p+3 == 0x.18p+7
+            m = re.match(r"0x([01])\.([0-9a-f]+)p([+-]\d+)$", float(a).hex())
+            body = "0x.%s%sp%+d" % (m.group(1), m.group(2).rstrip("0"), int(m.group(3)) + 4) if m else float(a).hex()
+            if d(st.booleans()):
+                body = body.upper().replace("0X", "0X")
+        elif form == 0:
             body = float(a).hex()
         elif form == 1:
             body = repr(a) if t is cm.DOUBLE else "%.9g" % a
@@ -115,9 +121,12 @@ class ConstBuilder(exprgen.Builder):
                 body = float(a).hex()
         else:
             body = "%.17e" % a if t is cm.DOUBLE else float(a).hex()
+        if form == 3 and "x" not in body.lower() and body[0].isdigit():
+            # decimal floating constants may start with zeros, also followed by 8 or 9 (they are not octal)
+            body = d(st.sampled_from(["0", "00", "000"])) + body
         if t is cm.FLOAT:
             # the decimal text is rounded to double first by some implementations: only use it when that is harmless
-            if "x" not in body and cm.f32(float(body)) != a:
+            if "x" not in body.lower() and cm.f32(float(body)) != a:
                 body = float(a).hex()
             body += "f"
         return "(-%s)" % body if neg else body
